@@ -297,7 +297,10 @@ def run(ctx):
         obs.append({'case': r['case'], 'expected': r['expected'], 'refused': True, 'ncols': 0, 'rows': [], 'decoded': [],
                     'param': {'type': 'NONE'}, 'zero': fkey.key(0.0), 'one': fkey.key(1.0), 'lo01': fkey.key(0.0), 'hi01': fkey.key(1.0), 'error': '%s: %s' % (type(e).__name__, str(e)[:120])})
     # the same cases through the model-input converters (no one-hot; 'pad' = feature / trial padding)
-    mi_cases = [r for r in cases if not r['case']['onehot']]
+    # (without JAX's x64 mode the padded arrays are float32 whatever dtype is asked for: a LOG-scaled integer range of
+    # length 5 at magnitude 1e6 is below float32's resolution of log(x); such classes stay with the numpy converters)
+    mi_cases = [r for r in cases if not r['case']['onehot']
+                and not (r['case']['shape']['name'] == 'I_class' and r['case']['shape']['cls']['mag'] == 'big' and r['case']['shape']['cls']['st'] == 'LOG')]
     if not ctx.thorough:
       mi_cases = [r for r in mi_cases if r['case']['shape']['name'] != 'D_class' or rng.random() < 0.3]
     n_core = len(obs)
